@@ -406,6 +406,9 @@ macro_rules! backend_cases {
                 if kv.g("tbonly") == 1 {
                     return Some(format!("tb={tb}"));
                 }
+                if op.starts_with("ckks_") {
+                    return Some(<BE as crate::scratch_cases7::CkksRun>::run(op, kv, tb).unwrap_or_else(|| format!("tb={tb}")));
+                }
 
                 macro_rules! finish {
                     ($tb:expr, $f:expr) => {{
@@ -594,6 +597,57 @@ macro_rules! backend_cases {
                                 r.data().as_ref().to_vec()
                             }
                         )
+                    }
+                    // ------------------------------------------------------------------ HAL: bivariate convolution
+                    // `size` = limbs of the destination, `asize` / `bsize` = limbs of the operands, `off` = cnv_offset (limbs)
+                    "cnv_prepare_left" | "cnv_prepare_right" | "cnv_prepare_self" | "cnv_apply_dft" | "cnv_by_const_apply"
+                    | "cnv_pairwise_apply_dft" => {
+                        let (asize, bsize, off) = (kv.g("asize"), kv.g("bsize"), kv.g("off"));
+                        let a = rand_vec(n, 2, asize, 10, 8);
+                        let b = rand_vec(n, 2, bsize, 10, 9);
+                        match op {
+                            "cnv_prepare_left" => finish!(tb, |s: &mut Scratch<BE>| {
+                                let mut l = module.cnv_pvec_left_alloc(2, size);
+                                module.cnv_prepare_left(&mut l, &a, !0i64, s);
+                                l.data().as_ref().to_vec()
+                            }),
+                            "cnv_prepare_right" => finish!(tb, |s: &mut Scratch<BE>| {
+                                let mut r = module.cnv_pvec_right_alloc(2, size);
+                                module.cnv_prepare_right(&mut r, &a, !0i64, s);
+                                r.data().as_ref().to_vec()
+                            }),
+                            "cnv_prepare_self" => finish!(tb, |s: &mut Scratch<BE>| {
+                                let mut l = module.cnv_pvec_left_alloc(2, size);
+                                let mut r = module.cnv_pvec_right_alloc(2, size);
+                                module.cnv_prepare_self(&mut l, &mut r, &a, !0i64, s);
+                                let mut o = l.data().as_ref().to_vec();
+                                o.extend_from_slice(r.data().as_ref());
+                                o
+                            }),
+                            "cnv_by_const_apply" => {
+                                let c: Vec<i64> = (0..bsize).map(|i| 1000 + 37 * i as i64).collect();
+                                finish!(tb, |s: &mut Scratch<BE>| {
+                                    let mut r = module.vec_znx_big_alloc(1, size);
+                                    module.cnv_by_const_apply(off, &mut r, 0, &a, 1, &c, s);
+                                    r.data().as_ref().to_vec()
+                                })
+                            }
+                            _ => {
+                                let mut l = module.cnv_pvec_left_alloc(2, asize);
+                                let mut r = module.cnv_pvec_right_alloc(2, bsize);
+                                module.cnv_prepare_left(&mut l, &a, !0i64, big_scratch().borrow());
+                                module.cnv_prepare_right(&mut r, &b, !0i64, big_scratch().borrow());
+                                finish!(tb, |s: &mut Scratch<BE>| {
+                                    let mut d = module.vec_znx_dft_alloc(1, size);
+                                    if op == "cnv_apply_dft" {
+                                        module.cnv_apply_dft(off, &mut d, 0, &l, 0, &r, 1, s);
+                                    } else {
+                                        module.cnv_pairwise_apply_dft(off, &mut d, 0, &l, &r, 0, 1, s);
+                                    }
+                                    d.data().as_ref().to_vec()
+                                })
+                            }
+                        }
                     }
                     // ------------------------------------------------------------------ core: LWE
                     "lwe_encrypt_sk" | "lwe_decrypt" => {
